@@ -137,6 +137,8 @@ func CompactNode(id ID, ip net.IP, port int) string {
 
 var goroutineHdr = regexp.MustCompile(`(?m)^goroutine (\d+) \[([^\]]*)\]:$`)
 
+var bubbleRe = regexp.MustCompile(`synctest bubble \d+`)
+
 type Goroutine struct {
 	ID    string
 	State string
@@ -157,9 +159,19 @@ func ModuleGoroutines() (ret []Goroutine) {
 		}
 		stackBuf = make([]byte, 2*len(stackBuf))
 	}
+	// Restrict to the caller's bubble: goroutines stranded by earlier executions of the same process
+	// live on in their own (dead) bubbles and must not be attributed to this one.
+	mine := ""
+	var self [256]byte
+	if m := bubbleRe.FindSubmatch(self[:runtime.Stack(self[:], false)]); m != nil {
+		mine = string(m[0])
+	}
 	for _, blk := range strings.Split(string(buf), "\n\n") {
 		m := goroutineHdr.FindStringSubmatch(blk)
 		if m == nil {
+			continue
+		}
+		if mine != "" && !strings.Contains(m[2], mine) {
 			continue
 		}
 		if !strings.Contains(blk, "github.com/anacrolix/dht/v2") {
